@@ -15,8 +15,8 @@ ENGINES = [
      "kind_free_text": "Rust conformance harness for datacake-eventual-consistency and the storage backends"},
     {"name": "h-node", "path": "harness/h-node", "serves_properties": ["C11", "C15", "C16"],
      "kind_free_text": "Rust conformance harness for datacake-node: selector actor, membership watcher, clock actor"},
-    {"name": "h-rpc", "path": "harness/h-rpc", "serves_properties": ["C12", "C13"],
-     "kind_free_text": "Rust conformance harness for datacake-rpc: real Server/RpcClient on loopback, frame mutation recorder"},
+    {"name": "h-rpc", "path": "harness/h-rpc", "serves_properties": ["C12", "C13", "C14"],
+     "kind_free_text": "Rust conformance harness for datacake-rpc: real Server/RpcClient on loopback, frame mutation recorder, fault-injecting TCP relay (link up / held / cut, replies stopped half-way)"},
     {"name": "tlc", "path": "/opt/veriftools/tla/tla2tools.jar", "serves_properties": [],
      "kind_free_text": "explicit-state model checker for the TLA+ modules in spec/"},
     {"name": "h-crdt", "path": "harness/h-crdt", "serves_properties": ["C03", "C04", "C05", "C08", "C09", "C10"],
@@ -194,12 +194,14 @@ CHECKS = {
         design_ref="DESIGN.md section 7 C06",
         note="Layouts up to 5 nodes / 2-3 data centres. Lost replies only in the model. Timing-dependent facts are polled, not asserted at an instant. A few calls per cluster are made while one replica answers later than the advertised timeout. Inside the same clusters the task distributors (Distributor.tla) and keyspace actors are trace-validated; differences there are reported as drift, not as C06 verdicts."),
     "C14": dict(
-        engine="tlc + h-sim",
-        technique="TLC exhaustive model checking of RpcNet.tla + execution of the model's external schedules (and random ones) against the real client/server in a turmoil simulation, outcomes validated by TLC",
+        engine="tlc + h-sim + h-rpc",
+        technique="TLC exhaustive model checking of RpcNet.tla + execution of the model's external schedules (and random ones) against the real client/server in a turmoil simulation and on real sockets through a fault-injecting TCP relay, outcomes validated by TLC",
         text=("RpcNet.tla models link state, the lazy connection, request timeouts and concurrent requests; TLC checks at-most-once execution, outcome "
               "classes and the timeout bound over every interleaving of fault events, sends and time, and emits every external schedule. A conductor "
               "task inside a turmoil simulation performs the schedules in simulated time against the real RpcClient/Server (fast and slow handler); "
-              "Trace_RpcNet.tla validates every request's outcome (reply identity and payload, handler run count, elapsed time)."),
-        design_ref="DESIGN.md section 7 C14",
-        note="Simulated network (turmoil 0.4). Quick tier runs every 40th model schedule plus 400 random ones; thorough every 6th plus 4000. Every other request goes through a clone of the configured client. Request timeouts are 500 ms and 2 s in the model's schedules (shorter than / equal to the 2 s connect timeout), also 1 s and 3 s in the random ones."),
+              "Trace_RpcNet.tla validates every request's outcome (reply identity and payload, handler run count, elapsed time). The same schedules "
+              "(a sample) and random ones run in real time against the real hyper transport through a TCP relay of the harness that holds or cuts the link "
+              "and can stop a large reply half-way; RpcNet.tla models a reply as head and body and tells the pre-repair behaviour (timeout ending with the head) apart."),
+        design_ref="DESIGN.md section 7 C14 and 14.2",
+        note="Simulated network (turmoil 0.4) and loopback TCP through a relay. Quick tier runs every 80th model schedule plus 400 random ones in turmoil, every 320th plus 300 random ones on real sockets (real time: a timed request may be 1 s late); thorough every 12th plus 4000 / every 48th plus 3000. Every other request goes through a clone of the configured client. Request timeouts are 500 ms and 2 s in the model's schedules (shorter than / equal to the 2 s connect timeout), also 1 s and 3 s in the random ones."),
 }
